@@ -572,6 +572,18 @@ def run(ctx: Ctx):
     for _ in range(ctx.budget(12, 200)):
         anchor = gen.rand_nfa(rng, 5, alphabet=rng.choice(gen.ALPHABETS[:4]), min_states=2)
         run_anchor_stream(ctx, anchor, ctx.budget(60, 150))
+    # 2e. the mutable-automata option: plain containers, repeated comparisons on the same objects
+    for _ in range(ctx.budget(250, 5000)):
+        alpha = rng.choice(gen.ALPHABETS[:4])
+        A0 = gen.rand_nfa(rng, 5, alphabet=alpha, min_states=2)
+        B0 = A0
+        for _ in range(rng.randint(0, 2)):
+            r = rng.choice(REWRITES)
+            B2 = call(lambda: r(rng, B0))
+            if B2[0] == "ok" and B2[1] is not None and len(B2[1].states) <= 10:
+                B0 = B2[1]
+        C0 = edit_one_edge(rng, A0) or gen.rand_nfa(rng, 4, alphabet=alpha)
+        run_mutable_option(ctx, A0, B0, C0)
     # 3. independent random pairs (same and different alphabets)
     for _ in range(ctx.budget(800, 20000)):
         alpha = rng.choice(gen.ALPHABETS[:5])
@@ -675,10 +687,55 @@ def run_anchor_stream(ctx: Ctx, anchor: NFA, n_temps: int, temp_reprs=None):
         del T
 
 
+def _mutable_copy(n: NFA) -> NFA:
+    """The same definition built under allow_mutable_automata=True from plain dicts and sets."""
+    return NFA(states=set(n.states), input_symbols=set(n.input_symbols),
+               transitions={k: {a: set(ts) for a, ts in row.items()} for k, row in n.transitions.items()},
+               initial_state=n.initial_state, final_states=set(n.final_states))
+
+
+@guarded
+def run_mutable_option(ctx: Ctx, A0: NFA, B0: NFA, C0: NFA):
+    """`==` under allow_mutable_automata=True: the operands hold plain dicts / sets.  The verdicts are
+    judged against the languages of the definitions AS BUILT (A0, B0, C0 are frozen twins), and the
+    same objects are compared several times in a row: a comparison must not depend on — or change —
+    what an earlier comparison left behind."""
+    import automata.base.config as global_config
+    global_config.allow_mutable_automata = True
+    try:
+        A, B, C = _mutable_copy(A0), _mutable_copy(B0), _mutable_copy(C0)
+        twins = {id(A): A0, id(B): B0, id(C): C0}
+        for i, (X, Y) in enumerate(((A, B), (B, A), (A, C), (C, B), (A, B), (B, C), (A, A))):
+            X0, Y0 = twins[id(X)], twins[id(Y)]
+            verdict, w = L.distinguish(L.raw_of(X0), L.raw_of(Y0), X0.input_symbols, budget=20000)
+            ctx.case(("mutable", repr(X0), repr(Y0), i) if len(X0.states) >= 2 and len(Y0.states) >= 2 else None)
+            ctx.stat("mutable_option_comparison")
+            if verdict == "budget":
+                continue
+            equal = verdict == "equal"
+            got = (call(lambda: X == Y), call(lambda: X != Y))
+            if got != (("ok", equal), ("ok", not equal)):
+                ctx.prop_fail(f"NFA == under allow_mutable_automata=True, comparison #{i + 1} on the same objects: "
+                              f"== is {got[0]}, != is {got[1]}, but the languages of the definitions as built are "
+                              f"{'equal' if equal else 'different'}" + ("" if equal else f" (word {w!r})"),
+                              dict(kind="mutable_option", A=repr(A0), B=repr(B0), C=repr(C0)), None)
+                return
+    finally:
+        global_config.allow_mutable_automata = False
+
+
 def replay(ctx: Ctx, path: str) -> int:
     data = json.load(open(path))
     rp = data.get("replay", data)
     env = {"NFA": NFA, "frozenset": frozenset}
+    if rp.get("kind") == "mutable_option":
+        run_mutable_option(ctx, eval(rp["A"], env), eval(rp["B"], env), eval(rp["C"], env))
+        if ctx.prop_fails:
+            print(f"VIOLATION property=C09 replay={path}")
+            print("  " + ctx.prop_fails[0]["what"])
+            return 1
+        print("replay: property holds on this history now")
+        return 0
     if rp.get("kind") == "anchor_stream":
         run_anchor_stream(ctx, eval(rp["anchor"], env), 0, temp_reprs=rp["temporaries"])
         if ctx.prop_fails:
